@@ -86,12 +86,11 @@ func clearInbucketEnv() {
 	}
 }
 
-// NewWorld builds a world from cfg. Domain lists travel through the environment and
-// config.Process so that the documented lower-casing of configuration is exercised.
-func NewWorld(c Cfg) (*World, error) {
+// ProcessCfg turns cfg into a config.Root the way the server does at start-up: through
+// environment variables and config.Process.
+func ProcessCfg(c Cfg) (*config.Root, error) {
 	envMu.Lock()
 	defer envMu.Unlock()
-	w := &World{Cfg: c}
 	clearInbucketEnv()
 	set := func(k, v string) { os.Setenv("INBUCKET_"+k, v) }
 	setList := func(k string, l []string) {
@@ -128,6 +127,17 @@ func NewWorld(c Cfg) (*World, error) {
 	clearInbucketEnv()
 	if err != nil {
 		return nil, fmt.Errorf("config.Process: %v", err)
+	}
+	return conf, nil
+}
+
+// NewWorld builds a world from cfg. Domain lists travel through the environment and
+// config.Process so that the documented lower-casing of configuration is exercised.
+func NewWorld(c Cfg) (*World, error) {
+	w := &World{Cfg: c}
+	conf, err := ProcessCfg(c)
+	if err != nil {
+		return nil, err
 	}
 	w.Conf = conf
 	w.Host = extension.NewHost()
